@@ -407,3 +407,17 @@ package protocol
 //@   ensures err == nil ==> d.Data.(*IPv6).HbhHeader != nil && d.Data.(*IPv6).HbhHeader.NextHeader == 17 && d.Data.(*IPv6).HbhHeader.HEL == hel && len(d.Data.(*IPv6).HbhHeader.Options) == 1 && d.Data.(*IPv6).HbhHeader.Options[0].Type == o.Type && d.Data.(*IPv6).HbhHeader.Options[0].Length == o.Length
 //@   ensures err == nil ==> udpeq(d.Data.(*IPv6).Data.(*UDP), u)
 //@   ensures err == nil ==> len(b2) == len(b1) && bytes_eq(b2, 0, b1, 0, len(b1))
+
+// Tags with VLAN id 0 (priority tags): the library represents "tagged" as VID != 0, so these two fail on the
+// pinned code (known findings); the same statements restricted to VID != 0 are proved by the lemmas above.
+//@ func lemmaEthPriorityTag(e, raw) (b) [C09]
+//@   inlinecalls
+//@   modifies e.Data
+//@   requires e != nil && wf(raw) && len(e.HWDst) == 6 && len(e.HWSrc) == 6 && e.VLANID.TPID == 33024 && e.VLANID.VID == 0 && e.VLANID.PCP < 8 && e.VLANID.PCP > 0 && e.VLANID.DEI < 2 && e.Ethertype == 34997 && blen(raw) <= 1500
+//@   ensures len(b) == 18 + blen(raw) && be16(b, 12) == 33024 && u8(b, 14) == e.VLANID.PCP * 32 + e.VLANID.DEI * 16 && be16(b, 16) == 34997
+
+//@ func lemmaEthTaggedBytes(b) (err, b2) [C09]
+//@   inlinecalls
+//@   requires len(b) >= 18 && len(b) <= 1518 && be16(b, 12) == 33024 && be16(b, 16) == 34997
+//@   ensures err == nil
+//@   ensures err == nil ==> len(b2) == len(b) && bytes_eq(b2, 0, b, 0, len(b))
